@@ -446,6 +446,40 @@ def extra_stages(res: Result) -> None:
                 if why:
                     res.violate(Violation(ID, "generator", why.partition("|")[0], case, f"generator yielding {len(dicts)} dicts, rewriter {rname}: {why.partition('|')[2]} :: {text[:400]}"))
     res.oblige("saw:generator-stage", True)
+    # tracing sessions that share ONE long-lived logger object, every ordered pair and triple of limits: what a session logs
+    # obeys the limit of THAT session
+    class SharedLogger:
+        def __init__(self):
+            self.traces: List[Any] = []
+
+        def log(self, t):
+            self.traces.append(t)
+
+        def flush(self):
+            pass
+
+    val = {"k0": 0, "k1": "s", "k2": 1.5}
+    for limits in list(itertools.permutations((10, 2, 0), 3)) + [(10, 0), (3, 2), (0, 3), (2, 10)]:
+        lg = SharedLogger()
+        marks = []
+        for k in limits:
+            n0 = len(lg.traces)
+            with trace_calls(lg, k, lambda code: code.co_filename == S.__file__):
+                S.mfunc(dict(val))
+                S.mfunc([dict(val)])
+            marks.append((k, n0, len(lg.traces)))
+        res.states += 1
+        res.transitions += len(limits)
+        res.evaluations += 1
+        res.validated += 1
+        case = {"values": [repr(val)], "k": list(limits), "stage": "sessions"}
+        for k, a, b in marks:
+            for t in lg.traces[a:b]:
+                for T in list(t.arg_types.values()) + [t.return_type]:
+                    why = check_type(T, k, [val, [val]]) if T is not None else None
+                    if why and not why.startswith("nonmember"):
+                        res.violate(Violation(ID, "sessions", why.partition("|")[0], case, f"sessions with limits {limits} sharing one logger: the session with limit {k} logged {O.show(T)}: {why.partition('|')[2]}"))
+    res.oblige("saw:sessions-sharing-a-logger", True)
 
 
 def run(ctx: Ctx) -> Result:
@@ -472,7 +506,7 @@ def run(ctx: Ctx) -> Result:
     default_config_check(res)
     extra_stages(res)
     res.bounds.update({"k": KS, "multisets": len(ms), "stages": STAGES, "max_keys": 12})
-    for o in ("saw:restub-stage", "saw:generator-stage", "saw:cli-stub-class", "saw:typed-dict-kept", "saw:typed-dict-collapsed-or-absent", "saw:stub-class", "saw:stub-nontotal-chain"):
+    for o in ("saw:sessions-sharing-a-logger", "saw:restub-stage", "saw:generator-stage", "saw:cli-stub-class", "saw:typed-dict-kept", "saw:typed-dict-collapsed-or-absent", "saw:stub-class", "saw:stub-nontotal-chain"):
         res.obligations.setdefault(o, False)
     return res
 
